@@ -34,6 +34,8 @@ ATOMS = {
 }
 MARK = "verif_mark"
 USER = "verif_user"
+# numeric per-atom data (_mass, _density) are assigned a recognisable number instead of the tuple
+USER_FLOAT = {"p1": 4242.4201, "p2": 4242.4202, "pub": 4242.4200}
 
 
 def err_kind(e):
@@ -72,6 +74,9 @@ class Viewer:
         if v is None or isinstance(v, (bool, int, str)):
             return v
         if isinstance(v, float):
+            for t, x in USER_FLOAT.items():
+                if v == x:
+                    return [USER, t]
             return repr(v)
         if isinstance(v, complex):
             return ["complex", repr(v.real), repr(v.imag)]
@@ -200,7 +205,7 @@ def main():
             elif kind == "indict":
                 out.append(dict(k="bool", b=bool(ev[3] in atom(ev[1], ev[2]).__dict__)))
             elif kind == "set":
-                setattr(atom(ev[1], ev[2]), ev[3], (USER, ev[1]))
+                setattr(atom(ev[1], ev[2]), ev[3], USER_FLOAT[ev[1]] if ev[3] in ("_mass", "_density") else (USER, ev[1]))
                 out.append(dict(k="ok"))
             elif kind == "mut":
                 ok = mark(getattr(atom(ev[1], ev[2]), ev[3]), ev[1])
